@@ -616,7 +616,7 @@ fn mutation_kinds() -> Vec<&'static str> {
          "dup_field", "dup_arg", "dup_directive_arg", "dup_enum_value", "dup_union_member", "dup_input_field", "dup_type",
          "unknown_field_type", "unknown_arg_type", "unknown_directive_arg_type", "unknown_input_field_type", "unknown_implements", "unknown_union_member",
          "input_in_output", "output_in_arg", "output_in_directive_arg", "output_in_input_field",
-         "not_interface", "implements_self", "missing_transitive",
+         "not_interface", "implements_self", "missing_transitive", "iface_implements_cycle",
          "iface_field_missing", "iface_field_type", "iface_arg_missing", "iface_arg_type", "iface_extra_required_arg",
          "iface_null_weaken", "iface_null_strengthen", "iface_list_depth", "iface_null_weaken",
          "union_member_not_object",
@@ -832,6 +832,26 @@ fn mutate(rng: &mut Rng, m: &mut Model, kind: &str) -> Option<(String, String)> 
             let i = *rng.pick(&idx); let me = tname(m, i);
             let (_, im) = implements_mut(m, i); let at = rng.below(im.len() + 1); im.insert(at, me);
             ok("implements_self", "interface")
+        }
+        "iface_implements_cycle" => {
+            // fresh interfaces implementing each other in a 2- or 3-cycle, every member listing all the others and
+            // defining the common field; optionally an object implementing all of them (spec 3.7: no cyclic `implements`)
+            let n = rng.range(2, 3);
+            let names: Vec<String> = (0..n).map(|k| format!("Cyc{k}")).collect();
+            let fld = || Field { name: "id".into(), args: vec![], ty: Ty::nn(Ty::n("ID")), dirs: vec![], desc: None, root: None };
+            for (k, me) in names.iter().enumerate() {
+                let mut others: Vec<String> = names.iter().filter(|x| *x != me).cloned().collect();
+                if rng.chance(1, 2) { rng.shuffle(&mut others); }
+                let at = rng.below(m.items.len() + 1);
+                let _ = k;
+                m.items.insert(at, Item::T(TypeDef { name: me.clone(), kind: Kind::Interface { implements: others, fields: vec![fld()] }, dirs: vec![], desc: None, is_ext: false }));
+            }
+            let with_obj = rng.chance(1, 2);
+            if with_obj {
+                let at = rng.below(m.items.len() + 1);
+                m.items.insert(at, Item::T(TypeDef { name: "CycObj".into(), kind: Kind::Object { implements: names.clone(), fields: vec![fld()] }, dirs: vec![], desc: None, is_ext: false }));
+            }
+            ok("missing_transitive", &format!("implements_cycle:{n}{}", if with_obj { ":object" } else { "" }))
         }
         "missing_transitive" => {
             // X implements J, J implements K: drop K from X
@@ -1227,6 +1247,11 @@ fn corpus() -> Vec<(&'static str, &'static str, &'static str)> {
         ("x_empty_object", "corpus:object_without_fields", "type A\ntype Query { a: A }\n"),
         ("x_empty_union", "corpus:union_without_members", "union U\ntype Query { u: U }\n"),
         ("iface_field_missing", "corpus:object_without_fields_implements", "interface I { f: Int }\ntype A implements I\ntype Query { a: A }\n"),
+        ("missing_transitive", "corpus:implements_cycle_2", "interface A implements B { id: ID! }\ninterface B implements A { id: ID! }\ntype Query { a: Int }\n"),
+        ("missing_transitive", "corpus:implements_cycle_3", "interface A implements B & C { id: ID! }\ninterface B implements C & A { id: ID! }\ninterface C implements A & B { id: ID! }\ntype Query { a: Int }\n"),
+        ("missing_transitive", "corpus:implements_cycle_2_with_object", "interface A implements B { id: ID! }\ninterface B implements A { id: ID! }\ntype Query implements A & B { id: ID! }\n"),
+        ("missing_transitive", "corpus:implements_cycle_3_chain", "interface A implements B { id: ID! }\ninterface B implements C { id: ID! }\ninterface C implements A { id: ID! }\ntype Query { a: Int }\n"),
+        ("implements_self", "corpus:implements_cycle_listing_itself", "interface A implements B & A { id: ID! }\ninterface B implements A & B { id: ID! }\ntype Query { a: Int }\n"),
         ("iface_field_type", "corpus:list_nullable_for_nonnull_list", "type T { a: Int }\ninterface I { f: [T]! }\ntype Query implements I { f: [T] }\n"),
         ("iface_field_type", "corpus:inner_list_nullable_for_nonnull", "type T { a: Int }\ninterface I { f: [[T]!] }\ntype Query implements I { f: [[T]] }\n"),
         ("iface_field_type", "corpus:list_of_nonnull_nullable_for_nonnull", "type Item { a: Int }\ninterface I { f: [Item!]! }\ntype Query implements I { f: [Item!] }\n"),
